@@ -510,7 +510,13 @@ func fillers(name string, g *Rng) (single []rune, multi []rune) {
 	case "ucs2":
 		return []rune("a中é"), []rune{0x1F600, 0x10000, 0x10FFFF}
 	case "gb":
-		return []rune("ab1"), []rune{'中', '文', 0x20AC, 0x1F600, 0x00E9} // 2- and 4-octet characters
+		var m []rune
+		for _, r := range []rune{'中', '文', 0x20AC, 0x1F600, 0x00E9, 0x4E02, 0x0080, 0x72DC, 0xFA0C, 0x10FFFF} {
+			if unitsOf("gb", r) >= 2 { // only what the implementation's own encoder expresses in several octets
+				m = append(m, r)
+			}
+		}
+		return []rune("ab1"), m // 2- and 4-octet characters, incl. the lowest and highest lead octets (81 40, 81 30 81 30, A0 40 / FE .., E3 32 9A 35)
 	default:
 		return []rune("abc@Δ1 "), []rune("[]{}^~|\\€")
 	}
